@@ -10,7 +10,7 @@ Open Scope Z_scope.
 Record round := { r_start : start; r_rets : rets }.
 
 Definition actor_eqb (a b : actor) : bool :=
-  match a, b with CS, CS | CC, CC | CR, CR | H, H => true | _, _ => false end.
+  match a, b with CS, CS | CC, CC | CR, CR | H, H | HR, HR => true | _, _ => false end.
 
 Fixpoint insz (x : Z) (l : list Z) : list Z :=
   match l with [] => [x] | y :: r => if x <=? y then x :: l else y :: insz x r end.
